@@ -19,7 +19,7 @@ EXTRACT = ["C15", "C14"]
 BINS = ["c15"]
 NEEDS_CICADA = True
 ALLOWED_AXIOMS = []
-PINNED = ["C15_args", "C15_args_newline_refuted", "C15_func_status", "C15_sete_flat", "C15_sete", "C15_sete_stops", "C15_sete_calls_instances", "C15_flag_preserved", "C15_sete_calls", "C15_sete_combined", "C15_sete_rest_of_body",
+PINNED = ["C15_args", "C15_args_newline_refuted", "C15_func_status", "C15_func_status_seq", "C15_sete_flat", "C15_sete", "C15_sete_stops", "C15_sete_calls_instances", "C15_flag_preserved", "C15_sete_calls", "C15_sete_combined", "C15_sete_rest_of_body",
           "C15_full", "C15_refuted"]
 TRUSTED = [
     "Coq 8.16.1 kernel (coqc; coqchk in thorough); vm_compute in Example witnesses and in the regression Examples",
@@ -118,6 +118,22 @@ def gen_l2(ctx, hp, workdir_token):
                 else:
                     bad = good[:3] + [["@x0", "probe", "s0"]]
                     cases.append(dict(files={"main.sh": text}, main="main.sh", args=[], expect=(good, 0), known=None, tag="func-status"))
+    # bodies with a failing command that is NOT the last one (and nested calls): the call's status is that of the LAST command
+    for bi, (sts, ) in enumerate([((3, 0),), ((0, 5, 0),), ((2, 7, 0),), ((0, 4),), ((6, 0, 0),)]):
+        body = "\n".join("  " + H(st_, "b%d_%d" % (bi, j)) for j, st_ in enumerate(sts))
+        calls = [["@x%d" % st_, "b%d_%d" % (bi, j)] for j, st_ in enumerate(sts)]
+        last = sts[-1]
+        text = "function fb%d {\n%s\n}\nfb%d\n%s\nfb%d && %s\nfb%d || %s\n" % (
+            bi, body, bi, H(0, "probe", "s$?"), bi, H(0, "and-ran"), bi, H(0, "or-ran"))
+        exp = calls + [["@x0", "probe", "s%d" % last]] + calls + ([["@x0", "and-ran"]] if last == 0 else []) + calls + ([["@x0", "or-ran"]] if last != 0 else [])
+        cases.append(dict(files={"main.sh": text}, main="main.sh", args=[], expect=(exp, 0), known=None, tag="func-seq"))
+    # nested: outer calls inner (which fails first, then succeeds) and then succeeds / fails itself
+    text = ("function inner {\n%s\n%s\n}\nfunction outer1 {\ninner\n%s\n}\nfunction outer2 {\n%s\ninner\n}\n"
+            "outer1\n%s\nouter2\n%s\nif outer2\n%s\nelse\n%s\nfi\n" % (
+                H(9, "i1"), H(0, "i2"), H(5, "o1"), H(8, "o2"), H(0, "probe", "a$?"), H(0, "probe", "b$?"), H(0, "then"), H(0, "else")))
+    inner = [["@x9", "i1"], ["@x0", "i2"]]
+    exp = inner + [["@x5", "o1"], ["@x0", "probe", "a5"]] + [["@x8", "o2"]] + inner + [["@x0", "probe", "b0"]] + [["@x8", "o2"]] + inner + [["@x0", "then"]]
+    cases.append(dict(files={"main.sh": text}, main="main.sh", args=[], expect=(exp, 0), known=None, tag="func-nested"))
     # function call as the last command: status of the script
     cases.append(dict(files={"main.sh": "function f {\n%s\n}\nf\n" % H(4, "fm")}, main="main.sh", args=[],
                       expect=([["@x4", "fm"]], 4), known=None, tag="func-last"))
@@ -240,6 +256,44 @@ def gen_sete_family(ctx, hp, count):
     return out
 
 
+def gen_status_family(ctx, hp, count):
+    """no set -e: functions whose bodies hold a failing command that is not the last one (`fail; ok`, `ok; fail; ok`, ...)
+    and nested calls; the caller observes the status of the call with `f && x`, `f || y`, `if f`, and as the script's last
+    command.  Same item format as gen_sete_family, reference ref_sete, model Model/ShellScript.v."""
+    rng = ctx.rng
+    out = []
+    pats = [(1, 0), (0, 1, 0), (1, 1, 0), (0, 1), (1, 0, 0), (0, 0), (1,), (0,)]
+    for _ in range(count):
+        k = [0]
+
+        def ext(st):
+            k[0] += 1
+            return ("ext", rng.choice([1, 3, 7]) if st else 0, "m%d" % k[0])
+        nfun = rng.randint(1, 4)
+        funs = []
+        for i in range(nfun):
+            body = [ext(x) for x in rng.choice(pats)]
+            if i > 0 and rng.random() < 0.5:
+                body.insert(rng.randint(0, len(body)), ("call", "f%d" % rng.randrange(i)))
+            funs.append(("f%d" % i, rng.choice(["function f%d {", "function f%d() {", "function f%d ()  {"]) % i, body))
+        main = []
+        for _ in range(rng.randint(3, 7)):
+            r = rng.random()
+            f = "f%d" % rng.randrange(nfun)
+            if r < 0.3:
+                main.append(("andor", f, rng.choice(["&&", "||"]), ext(rng.random() < 0.3)))
+            elif r < 0.55:
+                main.append(("ifcall", f, [ext(rng.random() < 0.3)], [ext(rng.random() < 0.3)]))
+            elif r < 0.8:
+                main.append(("call", f))
+            else:
+                main.append(ext(rng.random() < 0.3))
+        if rng.random() < 0.6:
+            main.append(("call", "f%d" % rng.randrange(nfun)))
+        out.append(dict(funs=funs, libs=[], main=main))
+    return out
+
+
 def render_sete(c, hp):
     def line(it):
         if it[0] == "ext":
@@ -252,6 +306,10 @@ def render_sete(c, hp):
             return "set -e"
         if it[0] == "def":
             return "function %s {\n%s\n}" % (it[1], "\n".join(line(x) for x in it[2]))
+        if it[0] == "andor":
+            return "%s %s %s" % (it[1], it[2], line(it[3]))
+        if it[0] == "ifcall":
+            return "if %s\n%s\nelse\n%s\nfi" % (it[1], "\n".join(line(x) for x in it[2]), "\n".join(line(x) for x in it[3]))
     files = {}
     for name, items in c["libs"]:
         files[name] = "\n".join(line(x) for x in items) + "\n"
@@ -285,7 +343,14 @@ def ref_sete(c):
             elif it[0] == "def":
                 st["funcs"][it[1]] = it[2]
             elif it[0] == "call":
+                run(st["funcs"][it[1]])        # status of the call = status of the last command executed in the body
+            elif it[0] == "andor":
                 run(st["funcs"][it[1]])
+                if (it[2] == "&&") == (st["last"] == 0):
+                    run([it[3]])
+            elif it[0] == "ifcall":
+                run(st["funcs"][it[1]])
+                run(it[2] if st["last"] == 0 else it[3])
             elif it[0] == "source":
                 run(c["libs"][it[1]][1])
     try:
@@ -401,7 +466,7 @@ def run(ctx, res):
                                 stderr=err[-400:], failing_input=True,
                                 note="script arguments / functions / source / exit status do not behave as the property states")
         # ---------------- L2b: set -e x functions x source (model = extracted Model/ShellScript.v)
-        fam = gen_sete_family(ctx, hp, 600 if ctx.thorough else 120)
+        fam = gen_sete_family(ctx, hp, 600 if ctx.thorough else 120) + gen_status_family(ctx, hp, 400 if ctx.thorough else 100)
         ffiles = [render_sete(c, hp) for c in fam]
         mlines = []
         for ff in ffiles:
